@@ -1357,9 +1357,11 @@ class FileBuilder:
             if (isinstance(suboperation, BuildFileOperation) and
                     not suboperation.raised):
                 filename = suboperation.filename
-                created_dirs = self._make_dirs(os.path.dirname(filename))
-                locked_created_dirs = self._build_dirs.started_building_file(
-                    filename, created_dirs)
+                with self._build_dirs.creation_lock():
+                    created_dirs = self._make_dirs(os.path.dirname(filename))
+                    locked_created_dirs = (
+                        self._build_dirs.started_building_file(
+                            filename, created_dirs))
                 try:
                     self._ensure_dirs_case(locked_created_dirs)
                     self._apply_cached_suboperations(suboperation)
@@ -1770,9 +1772,10 @@ class FileBuilder:
         operation = self._operation
         filename = operation.filename
         self._assert_build_file_call_valid()
-        created_dirs = self._prepare_file_creation()
-        locked_created_dirs = self._build_dirs.started_building_file(
-            filename, created_dirs)
+        with self._build_dirs.creation_lock():
+            created_dirs = self._prepare_file_creation()
+            locked_created_dirs = self._build_dirs.started_building_file(
+                filename, created_dirs)
 
         try:
             self._ensure_dirs_case(locked_created_dirs)
